@@ -159,6 +159,19 @@ def r3_drop_once(ctx):
             t = f.expr_operand(fr[0].args[0], fr[0].b, 'T')
             rep = [x for x in walk(t) if x[0] == 'call' and x[1] == 'std::mem::replace']
             ok = bool(rep) and any(x[0] == 'field' and x[2] == 'data' for x in walk(rep[0][2][0])) and any(x[0] == 'call' and x[1].endswith('null_mut') for x in walk(rep[0][2][1]))
+            if not ok:
+                # equivalent: read self.data, then store null into self.data — on every path that rebuilds the Box
+                is_null = lambda v: v is not None and any((x[0] == 'call' and x[1].endswith('null_mut')) or x == ('int', 0) for x in walk(v))
+                n_p = 0
+                good = any(x[0] == 'field' and x[2] == 'data' for x in walk(t))
+                for path, outcome, decs in fn_paths(ctx, f):
+                    if outcome != 'return' or fr[0].b not in path:
+                        continue
+                    n_p += 1
+                    effs = path_effects(f, path)
+                    nulled = any(e[0] == 'w' and e[2] == 'data' and is_null(e[4]) for e in effs)
+                    good = good and nulled
+                ok = good and n_p >= 1
             ctx.check(ok, 'take-before-rebox', 'try_cast replaces Body.data by null before rebuilding the Box (the value cannot be dropped twice)', fr[0].where(), show(t)[:200])
         # failure path returns self untouched
         for path, outcome, decs in fn_paths(ctx, f):
@@ -184,12 +197,15 @@ def r3_drop_once(ctx):
     if fcl:
         clo = ctx.P.closures_of(fcl)
         ok = False
-        for g in clo:
-            for b, t in ret_trees(g):
-                t = peel(t)
-                if t[0] == 'agg' and t[1].endswith('Body::Body'):
+        for g in [fcl] + clo:
+            for b, t0 in ret_trees(g):
+                for t in walk(t0):
+                  if t[0] == 'agg' and t[1].endswith('Body::Body'):
                     d = dict(zip(t[3], t[2]))
-                    ok = peel(d['data'])[0] == 'arg' and any(x[0] == 'field' and x[2] == 'vtable' for x in walk(d['vtable'])) and any(x[0] == 'field' and x[2] == 'length' for x in walk(d['length']))
+                    dt = peel(d['data'])
+                    # the cloned pointer: the closure's parameter (Option::map form) or the Some payload of the vtable call (match form)
+                    from_clone = (g is not fcl and dt[0] == 'arg') or (g is fcl and dt[0] == 'field' and any(x[0] == 'callind' and any(y[0] == 'field' and y[2] == 'try_clone' for y in walk(x[1])) for x in walk(dt)))
+                    ok = from_clone and any(x[0] == 'field' and x[2] == 'vtable' for x in walk(d['vtable'])) and any(x[0] == 'field' and x[2] == 'length' for x in walk(d['length']))
         ctx.check(ok, 'clone-shares-vtable-and-length', 'a cloned body owns the cloned value and keeps the vtable and the declared length', fcl.where())
 
 
